@@ -253,6 +253,36 @@ def getDevName (fixed : Bool) (hostnames : Option (List Str)) : Res Str :=
   | some [] => if fixed then .ok [] else .panic (.index "c.Devices.Entries[0]")
   | none => if fixed then .ok [] else .panic (.nilDeref "c.Devices.Entries")
 
+/-- result of `getObjListType`. -/
+inductive ObjT | unknownT | listT | groupT | anyT
+  deriving DecidableEq, Repr
+
+/-- `getObjListType(l, v)` (panos/diff.go): recursion through single-member lists that name an
+address-group.  The Go stack is modelled by fuel; running out of it is the unrecoverable
+`fatal error: stack overflow`. -/
+def objListType (groups : Str → Option (List Str)) (isAddr : Str → Bool) : Nat → List Str → Res ObjT
+  | 0, _ => .panic (.explicit "fatal error: stack overflow")
+  | fuel + 1, l =>
+    let flat : Res ObjT := .ok (if l.all isAddr then .listT else .unknownT)
+    match l with
+    | [e] =>
+      if e = lit "any" then .ok .anyT
+      else match groups e with
+        | some ms =>
+          (objListType groups isAddr fuel ms).bind fun t => .ok (if t = .listT then .groupT else .unknownT)
+        | none => flat
+    | _ => flat
+
+/-- `markAddresses(l)`: visits every member of every named group, recursively. -/
+def markAddresses (groups : Str → Option (List Str)) : Nat → List Str → Res Unit
+  | 0, _ => .panic (.explicit "fatal error: stack overflow")
+  | _ + 1, [] => .ok ()
+  | fuel + 1, e :: rest =>
+    (match groups e with
+      | some ms => markAddresses groups fuel ms
+      | none => .ok ()).bind fun _ => markAddresses groups (fuel + 1) rest
+termination_by fuel l => (fuel, l.length)
+
 end NA.C20.PanOs
 
 namespace NA.C20.Backend
